@@ -144,7 +144,6 @@ let show_res (fl : flags) (r : value res) : string =
 
 (* the switches in the order in which they are put back; names are the known-finding tags (prefix "xpath-") *)
 let switches : (string * (flags -> flags)) list = [
-  ("node-step-on-non-nodeset", (fun f -> { f with f_nonset = false }));
   ("cmp-canonize", (fun f -> { f with f_canon = false }));
   ("namespace-axis", (fun f -> { f with f_nsaxis = false }));
   ("text-nodes", (fun f -> { f with f_text = false }));
